@@ -638,7 +638,7 @@ func Scenarios(d *fw.Driver, res *fw.Result, seed int64, thorough bool) error {
 			return err
 		}
 	}
-	return keepalive(d, res, seed+300)
+	return fw.Confirmed(res, "keepalive-after-heal", func(r *fw.Result) error { return keepalive(d, r, seed+300) })
 }
 
 // OutageHTTP: during the outage something still answers on the server's address — a front end that replies to
